@@ -34,8 +34,17 @@
   exceptions                                  `Res.err`: `max([])`/`nodes[0]` on an empty frontier
                                               (ValueError), `None.same_as` (AttributeError), `rem_cands[0]`
                                               (IndexError). They are shown unreachable in Props/C04.
-  `agap`                                      0 only (the default); the `agap > 0` exit of L160 is not modelled
-  `log`                                       `False`
+  `agap`                                      the exit test of L158-163 `agap > 0 and lowerbound > 0 and
+                                              max_on_frontier - lowerbound <= agap` is float arithmetic; the model
+                                              is generic in `D`, so the test on (max_on_frontier, lowerbound) is the
+                                              parameter `gap : Diff D → Diff D → Bool` of the `…G` functions (the
+                                              driver instantiates it with that float expression; with the sentinel
+                                              lowerbound -10 the conjunct `lowerbound > 0` is false). `noGap` is
+                                              `agap = 0` (the default); `mainLoop`, `computeRaireAssertions` are the
+                                              `noGap` instances
+  `log`                                       the `if log:` branches only print (to `stream`, and L259 to stdout);
+                                              not modelled — the correspondence runs the real code with `log=True`
+                                              as well and requires the same result
   Preconditions outside of which model and code may differ (the harness never generates them):
   candidates duplicate-free; `contest.outcome` empty or containing every candidate (else
   `list.index` raises ValueError in perform_dive L872/876); `tot_ballots >=` number of ballots (so that
@@ -379,24 +388,41 @@ def pruneChecks (st : St α D) (te : Nat) : Option (St α D) :=
       some { st with store := s1, fr := insertNode s1 st.fr te }
     else none
 
-/-- raire.py L156-262, `agap = 0`. `Res.ok none` = `audit_not_possible`, `Res.ok (some st)` = normal exit -/
-def mainLoop (asn : Nat → Nat → Nat → Nat → D) (C : Contest α) (ballots : List (Ballot α))
-    (nebs : NebTable α D) : Nat → St α D → Res (Option (St α D))
+/-- L158 `max([node.estimate for node in frontier.nodes])` of a non-empty frontier `te :: rest` (Python's `max`
+keeps the first of equal values) -/
+def maxEst (s : Store α D) (te : Nat) (rest : List Nat) : Diff D :=
+  rest.foldl (fun m i => if Diff.lt m (s.get i).estimate then (s.get i).estimate else m) (s.get te).estimate
+
+/-- L160 `agap > 0 and lowerbound > 0 and max_on_frontier - lowerbound <= agap`, the float test being `gap`;
+with the sentinel `lowerbound = -10` the second conjunct is false -/
+def gapExit (gap : Diff D → Diff D → Bool) (mx : Diff D) : LB D → Bool
+  | none => false
+  | some l => gap mx l
+
+/-- `agap = 0` (the default): the exit test is never true -/
+def noGap : Diff D → Diff D → Bool := fun _ _ => false
+
+/-- raire.py L156-262. `Res.ok none` = `audit_not_possible`, `Res.ok (some st)` = normal exit (also the
+`agap` exit of L160-163) -/
+def mainLoopG (gap : Diff D → Diff D → Bool) (asn : Nat → Nat → Nat → Nat → D) (C : Contest α)
+    (ballots : List (Ballot α)) (nebs : NebTable α D) : Nat → St α D → Res (Option (St α D))
   | 0, _ => Res.fuel
   | fuel + 1, st =>
     match st.fr with
     | [] => Res.err Err.ValueError                       -- L158 max([])
     | te :: rest =>
+      if gapExit gap (maxEst st.store te rest) st.lb then Res.ok (some st)   -- L158-163
+      else
       let n := st.store.get te
       if !n.expandable then Res.ok (some st)             -- L168
       else
         let st0 := { st with fr := rest }                -- L171
         match pruneChecks st0 te with                    -- L173-183
-        | some st' => mainLoop asn C ballots nebs fuel st'
+        | some st' => mainLoopG gap asn C ballots nebs fuel st'
         | none =>
           let expand := fun (st1 : St α D) =>
             let r := expandLoop asn C ballots nebs te C.candidates st1
-            if r.1 then Res.ok none else mainLoop asn C ballots nebs fuel r.2
+            if r.1 then Res.ok none else mainLoopG gap asn C ballots nebs fuel r.2
           if !n.diveNode then                            -- L191
             match performDive asn C ballots nebs (C.candidates.length + 1) te st0 with
             | Res.fuel => Res.fuel
@@ -406,9 +432,14 @@ def mainLoop (asn : Nat → Nat → Nat → Nat → D) (C : Contest α) (ballots
               else
                 let st1 := { sd with lb := maxLB2 st.lb sd.lb }   -- L211
                 match pruneChecks st1 te with            -- L213-223
-                | some st' => mainLoop asn C ballots nebs fuel st'
+                | some st' => mainLoopG gap asn C ballots nebs fuel st'
                 | none => expand st1
           else expand st0
+
+/-- the main loop with `agap = 0` -/
+abbrev mainLoop (asn : Nat → Nat → Nat → Nat → D) (C : Contest α) (ballots : List (Ballot α))
+    (nebs : NebTable α D) : Nat → St α D → Res (Option (St α D)) :=
+  mainLoopG noGap asn C ballots nebs
 
 /-- raire.py L121-143: the initial frontier; `none` = the early `return []` of L134 -/
 def initLoop (asn : Nat → Nat → Nat → Nat → D) (C : Contest α) (ballots : List (Ballot α))
@@ -515,15 +546,15 @@ def subsumePass : List (Assertion α D) → List (Assertion α D)
       | some fin' => fin'
       | none => fin ++ [a]) [x]
 
-/-- raire.py L14-321 with `agap = 0`, `log = False` -/
-def computeRaireAssertions (asn : Nat → Nat → Nat → Nat → D) (C : Contest α)
+/-- raire.py L14-321 (`log = False`), the `agap` test being `gap` -/
+def computeRaireAssertionsG (gap : Diff D → Diff D → Bool) (asn : Nat → Nat → Nat → Nat → D) (C : Contest α)
     (cvrs : List (Option (Ballot α))) (winner : α) (fuel : Nat) : Res (List (Assertion α D)) :=
   let nebs := nebTable asn C cvrs                                     -- L74-98
   let ballots := cvrs.filterMap id                                    -- L109-110
   match initLoop asn C ballots nebs (initTails C winner) ⟨#[], [], none⟩ with   -- L114-143
   | none => Res.ok []
   | some st0 =>
-    match mainLoop asn C ballots nebs fuel st0 with                   -- L156-262
+    match mainLoopG gap asn C ballots nebs fuel st0 with              -- L156-262
     | Res.fuel => Res.fuel
     | Res.err e => Res.err e
     | Res.ok none => Res.ok []                                        -- L265-269
@@ -532,5 +563,10 @@ def computeRaireAssertions (asn : Nat → Nat → Nat → Nat → D) (C : Contes
       | Res.ok as => Res.ok (subsumePass (sortAssertions as))         -- L290-311
       | Res.fuel => Res.fuel
       | Res.err e => Res.err e
+
+/-- raire.py L14-321 with `agap = 0` (the default), `log = False` -/
+abbrev computeRaireAssertions (asn : Nat → Nat → Nat → Nat → D) (C : Contest α)
+    (cvrs : List (Option (Ballot α))) (winner : α) (fuel : Nat) : Res (List (Assertion α D)) :=
+  computeRaireAssertionsG noGap asn C cvrs winner fuel
 
 end Shangrla.Raire
